@@ -57,6 +57,7 @@ class Script:
         self.cur_draw = 0
         self.draw_log = []
         self.finishing = False
+        self.anext = {}                  # fid of an async generator -> its __anext__() awaitable while suspended on an await
         self.deleg_parent = {}           # fid of a live delegate -> (fid of the frame delegating to it, does that frame catch)
         self._deleg_entry = None         # (event, draw mark) of a delegate whose first entry is about to happen
 
@@ -180,6 +181,12 @@ class Script:
         raise ScriptError("unknown op %r" % (op,))
 
     def _finish_frame(self, fid):
+        frame = self.keep.get(fid)
+        if frame is not None and frame.f_code.co_flags & 0x200:      # CO_ASYNC_GENERATOR: no value can be returned
+            self.emit(ev="Return", fid=fid, how="implicit", v=self.absval(None))
+            self.stack.pop()
+            self._finish(fid)
+            return "ret_implicit", None
         self.emit(ev="Return", fid=fid, how="expr", v=self.absval(0))
         self.stack.pop()
         self._finish(fid)
@@ -201,7 +208,7 @@ class Script:
                 if a["kind"] == "plain":
                     return self.targets[a["target"]]()(*args, **kwargs)
                 obj = self.targets[a["target"]]()(*args, **kwargs)
-                frame = obj.gi_frame if a["kind"] == "gen" else obj.cr_frame
+                frame = obj.gi_frame if a["kind"] == "gen" else obj.ag_frame if a["kind"] == "agen" else obj.cr_frame
                 fid = self._new_fid(frame)
                 self.objs[fid] = obj
                 ev = self._pending_entry
@@ -218,9 +225,15 @@ class Script:
                 try:
                     if hasattr(obj, "gi_frame"):
                         next(obj)
+                    elif hasattr(obj, "ag_frame"):
+                        # one step of `async for`: __anext__() is driven until the generator yields (StopIteration
+                        # carries the value) or suspends on an await (send returns; the same awaitable is resumed later)
+                        an = self.anext.pop(fid, None) or obj.__anext__()
+                        an.send(None)
+                        self.anext[fid] = an
                     else:
                         obj.send(None)
-                except StopIteration:
+                except (StopIteration, StopAsyncIteration):
                     pass
                 finally:
                     ev["drawn"] = len(self.draw_log) > mark
